@@ -207,3 +207,15 @@ claim("C06",
       "trusts vf/ref/cea608.py clock; boundary of the gap rule follows the pinned test; ends "
       "floored to zero by the offset are not compared",
       "DESIGN.md 3/C06")
+claim("C15",
+      "Hypothesis SCC streams in pop-on / roll-up / paint-on mode with generated row lengths "
+      "(biased to 31-34), mid-row codes inside rows, unterminated final captions; expected "
+      "outcome computed from the row lengths; metamorphic re-run under every permutation of the "
+      "rows of each group",
+      "Generated-input search: 8k (thorough 200k) streams x all row permutations (<=36 per "
+      "case): read() must raise CaptionLineLengthError naming every row longer than 32, or "
+      "return only lines of <=32 characters, and the outcome class must not change with the "
+      "order or grouping of rows.",
+      "rows are letter runs without edge spaces; a 32-character row containing a mid-row code "
+      "may legitimately go either way (the code occupies a cell)",
+      "DESIGN.md 3/C15")
